@@ -62,7 +62,7 @@ theorem C03_lns_decode_maxpos {n : Nat} (hn : 3 ≤ n) :
     have := (decode_num (n := n) (by omega) true he hne).2
     simpa [hs] using this
 
-/-! ### special sources (double): zeros, infinities, the NaN patterns the code recognises -/
+/-! ### special sources: zeros, infinities, NaNs -/
 
 /-- ±0.0 ↦ the zero encoding, whatever libm returns for log2(0) -/
 theorem C03_lns_from_zero (c : Cfg) (hn : 2 ≤ c.nbits) (t : Thresholds) (lg : Nat) :
@@ -81,17 +81,51 @@ theorem C03_lns_from_inf (c : Cfg) (t : Thresholds) (lg : Nat) :
   · unfold convertF64; simp [signOf, expOf, fracOf, f64, h1]
   · unfold convertF64; simp [signOf, expOf, fracOf, f64, h2]
 
-/-- the three NaN fractions built from `ieee754_parameter<double>::qnanmask/snanmask` give the NaN encoding -/
-theorem C03_lns_from_nan (c : Cfg) (hn : 2 ≤ c.nbits) (t : Thresholds) (lg : Nat) :
-    convertF64 c t 0x7ff8000000000000 lg = setNaN c.nbits ∧ convertF64 c t 0x7ff4000000000000 lg = setNaN c.nbits ∧
-    convertF64 c t 0x7ffc000000000000 lg = setNaN c.nbits ∧ convertF64 c t 0xfff8000000000000 lg = setNaN c.nbits ∧
-    decode c.nbits (setNaN c.nbits) = Val.nan := by
-  refine ⟨?_, ?_, ?_, ?_, ?_⟩
-  · unfold convertF64; simp [signOf, expOf, fracOf, f64]
-  · unfold convertF64; simp [signOf, expOf, fracOf, f64]
-  · unfold convertF64; simp [signOf, expOf, fracOf, f64]
-  · unfold convertF64; simp [signOf, expOf, fracOf, f64]
-  · rw [setNaN_eq hn]; exact decode_nanEnc hn
+/-- **every NaN source — any payload, either sign, float or double — gives the NaN encoding** (code after the fix "lns
+    convert_ieee754 must map every NaN payload to the NaN encoding": inside `unbiasedExponent == eallset` the three fraction
+    patterns built from `ieee754_parameter<Real>::qnanmask/snanmask`, then fraction 0 = infinity, then `setnan()` for every
+    remaining fraction).  `nt` = the native format with its two masks; nothing is assumed about the masks, the observed
+    logarithm or the thresholds. -/
+theorem C03_lns_from_nan_ieee (nt : Native) (c : Cfg) (t : Thresholds) (v lg : Nat)
+    (hv : IeeeBits.isNaN nt.f v = true) :
+    convertIeee nt c t v lg = setNaN c.nbits := by
+  unfold IeeeBits.isNaN at hv
+  have hE : (expOf nt.f v == nt.f.eAll) = true := by
+    cases h : (expOf nt.f v == nt.f.eAll) <;> simp [h] at hv ⊢
+  have hF : (fracOf nt.f v == 0) = false := by
+    cases h : (fracOf nt.f v == 0) <;> simp [h, hE] at hv ⊢
+    simp [beq_iff_eq] at h; exact absurd h hv
+  unfold convertIeee
+  simp only [hE, hF, Bool.true_and, Bool.false_eq_true, if_false, if_true, ite_self]
+
+/-- double sources: every NaN (the three recognised fractions and every other payload) gives the NaN encoding, which
+    decodes to NaN -/
+theorem C03_lns_from_nan (c : Cfg) (hn : 2 ≤ c.nbits) (t : Thresholds) (v lg : Nat)
+    (hv : IeeeBits.isNaN f64 v = true) :
+    convertF64 c t v lg = setNaN c.nbits ∧ decode c.nbits (convertF64 c t v lg) = Val.nan := by
+  have h : convertF64 c t v lg = setNaN c.nbits := by
+    rw [← C03_lns_convert_f64_eq]; exact C03_lns_from_nan_ieee natF64 c t v lg hv
+  refine ⟨h, ?_⟩
+  rw [h, setNaN_eq hn]; exact decode_nanEnc hn
+
+/-- the spec predicate of C03 accepts the conversion of every NaN source (float and double, every configuration with
+    nbits ≥ 2, both behaviours) -/
+theorem C03_lns_from_nan_spec (nt : Native) (c : Cfg) (hn : 2 ≤ c.nbits) (t : Thresholds) (v lg : Nat)
+    (hv : IeeeBits.isNaN nt.f v = true) :
+    fromOk c.nbits c.rbits c.wrap Src.nan (convertIeee nt c t v lg) = some true := by
+  rw [C03_lns_from_nan_ieee nt c t v lg hv, setNaN_eq hn]
+  obtain ⟨p, hp, e2, e1, e0, e3⟩ := pow_n_var hn
+  unfold fromOk
+  have hlt : ¬ (2 ^ (c.nbits - 1) + 2 ^ (c.nbits - 2) ≥ 2 ^ c.nbits) := by rw [e0, e1, e2]; omega
+  simp only [hlt, if_false, decode_nanEnc hn]
+  rfl
+
+-- non-vacuity: the four patterns the old code recognised, and payloads it did not
+example : IeeeBits.isNaN f64 0x7ff8000000000000 = true ∧ IeeeBits.isNaN f64 0x7ff4000000000000 = true ∧
+    IeeeBits.isNaN f64 0x7ffc000000000000 = true ∧ IeeeBits.isNaN f64 0xfff8000000000000 = true ∧
+    IeeeBits.isNaN f64 0x7ff0000000000001 = true ∧ IeeeBits.isNaN f64 0xfff123456789abcd = true ∧
+    IeeeBits.isNaN natF32.f 0x7fc00000 = true ∧ IeeeBits.isNaN natF32.f 0x7f800001 = true ∧ IeeeBits.isNaN natF32.f 0xffc12345 = true := by
+  decide
 
 /-- float sources: the same exits of convert_ieee754<float> -/
 theorem C03_lns_from_f32_special (c : Cfg) (t : Thresholds) (lg : Nat) :
@@ -103,7 +137,17 @@ theorem C03_lns_from_f32_special (c : Cfg) (t : Thresholds) (lg : Nat) :
   refine ⟨?_, ?_, ?_, ?_, ?_, ?_⟩ <;>
     (unfold convertIeee; simp [signOf, expOf, fracOf, IeeeBits.isZero, natF32, f32, Fmt.eAll, h1, h2])
 
-/-! ### the property is FALSE of the pinned code in two input regions (known findings) -/
+/-- the former witness of `lns.from_ieee.nan_payload` (`convlns 5 2 u8 S fromd 7ff0000000000001 7ff8000000000001 … => 0` on the
+    code before the fix): the repaired code stores the NaN encoding 0x18 of lns<5,2>, which the spec predicate accepts -/
+theorem C03_lns_from_nan_payload :
+    let c : Cfg := ⟨5, 2, 8, false⟩
+    let t : Thresholds := ⟨0x400ae89f995ad3ad, 0x3fd306fe0a31b715, 0x3fd172b83c7d517b⟩
+    IeeeBits.isNaN f64 0x7ff0000000000001 = true ∧
+    convertF64 c t 0x7ff0000000000001 0x7ff8000000000001 = 0x18 ∧ decode 5 0x18 = Val.nan ∧
+    fromOk 5 2 false Src.nan 0x18 = some true ∧ fromOk 5 2 false Src.nan 0 = some false := by
+  decide +kernel
+
+/-! ### the property is FALSE of the pinned code in one input region (known finding `lns.from_ieee.log2_ulp_exceeds_source_ulps`) -/
 
 /-- the full C03 statement for lns = double (for the libm values of the transcript line) -/
 def C03_lns_from_f64_full : Prop :=
@@ -114,20 +158,12 @@ def C03_lns_from_f64_full : Prop :=
        else if IeeeBits.isZero f64 v then Src.zero else Src.num (signOf f64 v) (mant f64 v) (ulpExp f64 v))
       (convertF64 c t v lg) = some true
 
-/-- a NaN whose fraction is not one of the three recognised patterns is converted like a number: log2(NaN) = NaN has
-    the exponent field 0x7FF, every bit is projected outside the exponent and the result is the encoding of 1.0
-    (witness: `convlns 5 2 u8 S fromd 7ff0000000000001 7ff8000000000001 … => 0`) -/
-theorem C03_lns_from_nan_payload_counterexample :
-    let c : Cfg := ⟨5, 2, 8, false⟩
-    let t : Thresholds := ⟨0x400ae89f995ad3ad, 0x3fd306fe0a31b715, 0x3fd172b83c7d517b⟩
-    IeeeBits.isNaN f64 0x7ff0000000000001 = true ∧
-    convertF64 c t 0x7ff0000000000001 0x7ff8000000000001 = 0 ∧ decode 5 0 = Val.num false 0 ∧
-    fromOk 5 2 false Src.nan 0 = some false := by
-  decide +kernel
-
+/-- a double closer to a log-domain midpoint than one ulp of its native log2: -319001.376… in lns<16,8>; glibc's log2 returns
+    exactly 18.283203125 = 4680.5 / 2^8, the tie goes to the even exponent 4680 although the source lies on the other side
+    of the midpoint (witness: `convlns 16 8 u8 S fromd c113786581d3f66e 4032488000000000 … => 9248`) -/
 theorem C03_lns_from_f64_full_false : ¬ C03_lns_from_f64_full := by
   intro h
-  have := h ⟨5, 2, 8, false⟩ ⟨0x400ae89f995ad3ad, 0x3fd306fe0a31b715, 0x3fd172b83c7d517b⟩ 0x7ff0000000000001 0x7ff8000000000001
+  have := h ⟨16, 8, 8, false⟩ ⟨0x43efe9d96b2a23d9, 0x3bf00b1afa5abcbf, 0x3bf0058c86da1c0a⟩ 0xc113786581d3f66e 0x4032488000000000
     (by decide) (by decide) (by decide)
   revert this
   decide +kernel
